@@ -13,6 +13,8 @@ import numpy as np
 from fsmc import bases, tissue as T, fsutil
 from fsmc.ref import decomp
 
+import os
+REPO = os.environ.get("FORSYS_REPO", "/repo")
 PID = "C08"
 RULE = ("states = (connected sub-tissue, k, resampled?) reached by adding one adjacent cell at a time from every single cell, "
         "de-duplicated on the cell set; non-trivial = has at least one junction; distinct classes = distinct "
@@ -245,7 +247,7 @@ def build(tier, seed):
                 SubTissues("lens", [1, 2, 4], [2, 3]),
                 SubTissues("v4x4p%d" % (seed + 1), [1, 3], [3]),
                 ParserMeshes([["se", "v5x4", None, 2], ["se", "v5x5", None, 0], ["wkt", "v5x4", None, 1], ["tess", 5, 4, seed + 1, 40.0],
-                              ["raster", [5, 4, 15, 0, 40], True], ["se_file", "/repo/tests/data/furrow_gauss_velocity/stage0.dmp"]], [3, 6])]
+                              ["raster", [5, 4, 15, 0, 40], True], ["se_file", REPO + "/tests/data/furrow_gauss_velocity/stage0.dmp"]], [3, 6])]
     return [SubTissues("v5x5", [0, 1, 2, 5, 15], [2, 6]),
             SubTissues("v6x5", [0, 2, 5], [2, 6]),
             SubTissues("brick4x3", [0, 1, 2], [2]),
@@ -255,5 +257,5 @@ def build(tier, seed):
             SubTissues("v5x4p%d" % (seed + 1), [0, 1, 2, 5], [2, 6]),
             ParserMeshes([["se", "v5x4", None, 2], ["se", "v5x5", None, 0], ["se", "v6x5", None, 5], ["wkt", "v5x4", None, 1], ["wkt", "v5x5", None, 3],
                           ["tess", 5, 4, seed + 1, 40.0], ["tess", 7, 6, seed + 2, 1000.0], ["raster", [5, 4, 15, 0, 40], True], ["raster", [6, 5, 15, 1, 44], True],
-                          ["se_file", "/repo/tests/data/furrow_gauss_velocity/stage0.dmp"], ["se_file", "/repo/tests/data/12_12/step_20.dmp"],
-                          ["se_file", "/repo/tests/data/initial_furrow.dmp"], ["skeleton", "/repo/tests/data/test_nonzero.tif"]], [2, 3, 6, 12])]
+                          ["se_file", REPO + "/tests/data/furrow_gauss_velocity/stage0.dmp"], ["se_file", REPO + "/tests/data/12_12/step_20.dmp"],
+                          ["se_file", REPO + "/tests/data/initial_furrow.dmp"], ["skeleton", REPO + "/tests/data/test_nonzero.tif"]], [2, 3, 6, 12])]
